@@ -328,6 +328,17 @@ KindText(k) ==
 RECURSIVE NatText(_)
 NatText(n) == IF n < 10 THEN <<48 + n>> ELSE NatText(n \div 10) \o <<48 + (n % 10)>>
 
+(* Sizes beyond TLC's 32-bit integers.  A `size` s >= 0 is itself; s < 0 stands for the number whose decimal text is    *)
+(* BigPrefix[(-s) \div 1000] followed by the three digits of (-s) % 1000 - windows of a thousand numbers around 2^31,    *)
+(* 2^32, 2^53, 2^63 and 2^64 (the driver translates in both directions; nothing here does arithmetic on a size).         *)
+BigPrefix == << <<50, 49, 52, 55, 52, 56, 51>>,                                                    \* 2147483 ...  (2^31 = ...648)
+                <<52, 50, 57, 52, 57, 54, 55>>,                                                    \* 4294967 ...  (2^32 = ...296)
+                <<57, 48, 48, 55, 49, 57, 57, 50, 53, 52, 55, 52, 48>>,                            \* 9007199254740 ...  (2^53 = ...992)
+                <<57, 50, 50, 51, 51, 55, 50, 48, 51, 54, 56, 53, 52, 55, 55, 53>>,                \* 9223372036854775 ...  (2^63 = ...808)
+                <<49, 56, 52, 52, 54, 55, 52, 52, 48, 55, 51, 55, 48, 57, 53, 53, 49>> >>          \* 18446744073709551 ...  (2^64 - 1 = ...615)
+SizeText(s) == IF s >= 0 THEN NatText(s)
+               ELSE LET m == 0 - s  k == m % 1000 IN BigPrefix[m \div 1000] \o <<48 + (k \div 100), 48 + ((k \div 10) % 10), 48 + (k % 10)>>
+
 RECURSIVE Pcf(_)
 RECURSIVE PcfList(_, _)
 RECURSIVE PcfFields(_, _)
@@ -346,6 +357,6 @@ Pcf(d) ==
       [] d.c = "map" -> Lit_map \o Pcf(d.values) \o <<125>>
       [] d.c = "record" -> Lit_name \o Str(d.name) \o Lit_type \o Str(Txt_record) \o Lit_fields \o PcfFields(d.fields, 1) \o <<93, 125>>
       [] d.c = "enum" -> Lit_name \o Str(d.name) \o Lit_type \o Str(Txt_enum) \o Lit_symbols \o PcfSymbols(d.symbols, 1) \o <<93, 125>>
-      [] d.c = "fixed" -> Lit_name \o Str(d.name) \o Lit_type \o Str(Txt_fixed) \o Lit_size \o NatText(d.size) \o <<125>>
+      [] d.c = "fixed" -> Lit_name \o Str(d.name) \o Lit_type \o Str(Txt_fixed) \o Lit_size \o SizeText(d.size) \o <<125>>
 
 =============================================================================
